@@ -23,6 +23,8 @@ pub enum Line
     False(String),
     /// `kill -KILL $$ <tag>`: the line's shell dies from a signal (no exit code)
     Kill(String),
+    /// `test -f guard && cat inputs... > out`: fails WITHOUT touching `out` when `guard` is missing
+    GuardedCat { guard: String, inputs: Vec<String>, out: String },
 }
 
 impl Line
@@ -37,6 +39,7 @@ impl Line
             Line::True(tag) => format!("true {}", tag),
             Line::False(tag) => format!("false {}", tag),
             Line::Kill(_tag) => "kill -KILL $$".to_string(),
+            Line::GuardedCat { guard, inputs, out } => format!("test -f {} && cat {} > {}", guard, inputs.join(" "), out),
         }
     }
 }
@@ -353,7 +356,8 @@ pub fn eval(rules: &RuleSet, fs: &Fs) -> Eval
                         _ => errored = true,
                     }
                 },
-                Line::Cat { inputs, out } =>
+                Line::GuardedCat { guard, .. } if !fs.is_file(guard) => errored = true,
+                Line::Cat { inputs, out } | Line::GuardedCat { inputs, out, .. } =>
                 {
                     let mut data = vec![];
                     for inp in inputs
